@@ -10,7 +10,7 @@ from pathlib import Path
 
 import vf
 
-EDIT_KINDS = ["ReorderKeys", "AddDoc", "AddAliases", "AddDefault", "AddAttribute", "AddForeignKeyAttribute", "AddOrder", "AddLogical",
+EDIT_KINDS = ["ReorderKeys", "AddDoc", "AddAliases", "AddAliasOfOtherType", "AddDefault", "AddAttribute", "AddForeignKeyAttribute", "AddOrder", "AddLogical",
               "WrapPrimitive", "RespellNamespace", "RespellReference"]
 
 
